@@ -143,7 +143,9 @@ Srv1Good(sub) == {sf \in StepGrid \X FailGrid : Srv1ParamsOk(sub, sf[1], sf[2])}
 Pus1NParts == 9
 Pus1GridPart(i) ==
   CASE i = 1 -> {[op |-> "reqid.rt", a |-> [r |-> r, sfx |-> s, via |-> "ctor"]] : r \in ReqGrid, s \in {<<>>, <<9>>}}
-    [] i = 2 -> {[op |-> "reqid.rt", a |-> [r |-> r, sfx |-> <<>>, via |-> v]] : r \in ReqTcGrid, v \in {"sph", "tc"}}
+    [] i = 2 -> {[op |-> "reqid.rt", a |-> [r |-> r, sfx |-> <<>>, via |-> v]] : r \in ReqTcGrid, v \in {"sph", "tc", "mutate"}}
+                \cup {[op |-> "reqid.rt", a |-> [r |-> r, sfx |-> <<>>, via |-> "mutate"]] :
+                        r \in [ver : {0, 7}, type : 0..1, shf : 0..1, apid : {0, 2047}, flags : {0, 3}, count : {0, 16383}]}
                 \cup {[op |-> "reqid.unpack", a |-> [octets |-> Take(<<31, 255, 192, 1, 7>>, k)]] : k \in 0..5}
                 \cup {[op |-> "reqid.eq", a |-> [r1 |-> ReqSample, r2 |-> r]] :
                         r \in {ReqSample, [ReqSample EXCEPT !.ver = 1], [ReqSample EXCEPT !.type = 0], [ReqSample EXCEPT !.shf = 0],
